@@ -123,6 +123,35 @@ func (p *Policy) Build() (accessstructures.Monotone, error) {
 	return nil, fmt.Errorf("unknown policy kind %q", p.Kind)
 }
 
+// BuildListed builds the same access structure from a different LISTING of it: sets are sets, so the order in which a party's
+// configuration happens to list the shareholders of a threshold / unanimity / level, or the maximal unqualified sets of a CNF
+// (and the members of each), must not matter.  perm(n) returns a permutation of 0..n-1.
+func (p *Policy) BuildListed(perm func(n int) []int) (accessstructures.Monotone, error) {
+	sh := func(v []uint64) []uint64 {
+		out := make([]uint64, len(v))
+		for i, j := range perm(len(v)) {
+			out[i] = v[j]
+		}
+		return out
+	}
+	q := *p
+	switch p.Kind {
+	case "threshold", "unanimity":
+		q.IDs = sh(p.IDs)
+	case "cnf":
+		q.MUS = make([][]uint64, len(p.MUS))
+		for i, j := range perm(len(p.MUS)) {
+			q.MUS[i] = sh(p.MUS[j])
+		}
+	case "hier":
+		q.Levels = make([]Level, len(p.Levels))
+		for i, l := range p.Levels {
+			q.Levels[i] = Level{T: l.T, IDs: sh(l.IDs)}
+		}
+	}
+	return q.Build()
+}
+
 // MSPJ projects an MSP: matrix rows and the holder of each row.
 func MSPJ(m *msp.MSP[S]) map[string]any {
 	rows := tr.MatInts(m.Matrix())
